@@ -1,11 +1,12 @@
 (* C12  Header text survives encoding.  Statements only.
    What is PROVED here: the round trip for unstructured header values, for EVERY string (C12_roundtrip), the
-   part about encoded-words, and the unfolding of values that need no encoding.  The round trips of display
-   names (phrase) and file names (RFC 2231) are established by running the extracted readers on the
-   implementation's output (exhaustive small alphabet + families), see DESIGN.md. *)
+   round trip for display names, for EVERY name (C12_display_name), the part about encoded-words, and the
+   unfolding of values that need no encoding.  The round trip of file names (RFC 2231) is established by
+   running the extracted reader on the implementation's output (exhaustive small alphabet + families), see
+   DESIGN.md. *)
 From Coq Require Import Strings.String.
 From LV Require Import Base.Bytes Base.Str Base.Res Base.Base64 Model.HeaderEnc Spec.Rfc2047 Proofs.Rfc2047Proofs
-  Proofs.Base64Proofs Spec.Rfc5322 Proofs.HeaderPlainProofs Base.Utf8 Proofs.HeaderRtProofs.
+  Proofs.Base64Proofs Spec.Rfc5322 Proofs.HeaderPlainProofs Base.Utf8 Proofs.HeaderRtProofs Proofs.PhraseProofs.
 
 (* THE property for unstructured values (Subject, Comments, custom text headers): for every header name and
    EVERY well-formed UTF-8 string - any length, any mixture of words that need encoding and words that do not,
@@ -28,6 +29,26 @@ Example C12_roundtrip_example :
   utf8_valid v = true /\
   match header_value_encode (bs "Subject") v with Ok e => decode_unstructured e = v /\ e <> v | _ => False end.
 Proof. vm_compute. split; [reflexivity|split; [reflexivity|discriminate]]. Qed.
+
+(* THE property for display names: for every header name, EVERY well-formed UTF-8 display name and every address
+   text without CR that does not end in a space, the header body that Mailbox::encode writes for
+   `name <address>` unfolds to  phrase " <" address ">"  and an RFC 5322 / RFC 2047 reader of that phrase (atoms,
+   quoted-strings with quoted-pairs, encoded-words; Spec/Rfc2047.v decode_phrase) recovers exactly the name:
+   plain names, names that need quotes, names with quotes and backslashes (quoted-pairs), and everything else
+   (encoded-words) - leading, inner and trailing blanks included, whatever folding was inserted. *)
+Theorem C12_display_name : forall (hname n e0 : bytes) (c : N),
+  utf8_valid n = true -> nocr (e0 ++ [c]) = true -> (c =? SP) = false ->
+  exists e ph, mailboxes_header_encode hname [(Some n, e0 ++ [c])] = Ok e /\
+    unfold e = ph ++ bs " <" ++ (e0 ++ [c]) ++ bs ">" /\ decode_phrase ph = Some n.
+Proof. exact display_name_roundtrip_utf8. Qed.
+
+Example C12_display_name_example :
+  let n := bs "Doe, " ++ [195; 169] ++ bs "  " ++ [240; 159; 152; 128] in
+  match mailboxes_header_encode (bs "To") [(Some n, bs "user@example.com")] with
+  | Ok e => exists ph, unfold e = ph ++ bs " <user@example.com>" /\ decode_phrase ph = Some n /\ ph <> n
+  | _ => False
+  end.
+Proof. exists (bs "=?utf-8?b?RG9lLCDDqSAg8J+YgA==?="). vm_compute. split; [reflexivity|]. split; [reflexivity|discriminate]. Qed.
 
 (* Every encoded-word the encoder writes - "=?utf-8?b?" base64(word) "?=" for a piece of at most
    45 bytes - is a valid RFC 2047 encoded-word on its own, is at most 75 characters long, and a
@@ -72,3 +93,4 @@ Print Assumptions C12_piece_bound.
 Print Assumptions C12_b64_roundtrip.
 Print Assumptions C12_roundtrip.
 Print Assumptions C12_roundtrip_bytes.
+Print Assumptions C12_display_name.
